@@ -240,6 +240,14 @@ def include_rules(P, rep, rule, modname, pred, what, floor):
     rep.floor('%s obligations (%s)' % (what, modname), n, floor)
 
 
+def require_overflow_checks(P, rep, rule):
+    """plain + / - in the contracts are relied on to trap: [profile.release] overflow-checks must stay true"""
+    prof = getattr(P, 'info', {}).get('release_profile') or {}
+    rep.check(bool(prof.get('overflow_checks')), rule, 'release-profile:overflow-checks',
+              '[profile.release] overflow-checks = true in /repo/Cargo.toml (the arithmetic the rules accept as "checked" only traps with it)',
+              'Cargo.toml', 'overflow-checks = %s' % prof.get('raw'))
+
+
 def is_zero(t):
     """the integer 0, literally or as the numeric Default"""
     t = core(t)
